@@ -11,7 +11,7 @@ from cxxheaderparser import types as T
 TECHNIQUE = 'Lean 4: contiguity theorems for the value collectors (result = given tokens ++ exactly the tokens taken from the stream, in order; stream left right after them) for every state, kernel-decided slicing flags regenerated from the call sites; stop positions decided by correspondence and an expression-grammar oracle per position'
 LEAN_TARGET = "CxxModel.Props.C14"
 THEOREMS = ["Cxx.C14_balanced_contiguous", "Cxx.C14_value_until_contiguous", "Cxx.C14_value_stops", "Cxx.C14_create_value", "Cxx.C14_inner", "Cxx.C14_value_sites",
-            "Cxx.tokLoop_contiguous", "Cxx.tokLoop_complete", "Cxx.consumeBalanced_region", "Cxx.interp_bind", "Cxx.C14_method_noexcept_value", "Cxx.C14_enumerator_values", "Cxx.C14_variable_initializer", "Cxx.C14_unfused_chars", "Cxx.C14_unfused_none"]
+            "Cxx.tokLoop_contiguous", "Cxx.tokLoop_complete", "Cxx.consumeBalanced_region", "Cxx.interp_bind", "Cxx.C14_method_noexcept_value", "Cxx.C14_enumerator_values", "Cxx.C14_variable_initializer", "Cxx.C14_unfused_chars", "Cxx.C14_unfused_none", "Cxx.C14_default_argument"]
 ANCHORS = ["parser.py:CxxParser._consume_value_until", "parser.py:CxxParser._consume_balanced_tokens", "parser.py:CxxParser._create_value",
            "parser.py:CxxParser._parse_fn_end", "parser.py:CxxParser._parse_method_end", "parser.py:CxxParser._parse_array_type",
            "parser.py:CxxParser._parse_pqname_decltype_specifier", "parser.py:CxxParser._parse_requires", "parser.py:CxxParser._parse_requires_segment",
@@ -28,7 +28,7 @@ RULE = ("a token-level expression grammar (literals incl. strings/chars holding 
         "expected = the generator's own token list with the documented delimiters removed, and everything outside the value "
         "equal to the same declaration written with the value `1`; non-trivial = expression of at least 5 tokens with a bracket")
 CARRIED_BY = {
-    "a position end to end through the parse loop and the recursive core: in `T ptr-ops x = value ;` the one on_variable carries as value EXACTLY the tokens written between the `=` and the `;` (same types and texts, same order), for every value of top-level shape of any length": "theorem C14_variable_initializer (Theorems/VarInit.lean, FieldForm.lean, TopLevel.lean)",
+    "a position end to end through the parse loop and the recursive core: in `T ptr-ops x = value ;` the one on_variable carries as value EXACTLY the tokens written between the `=` and the `;` (same types and texts, same order), for every value of top-level shape of any length": "theorems C14_variable_initializer (Theorems/VarInit.lean, FieldForm.lean, TopLevel.lean), C14_default_argument (the default of a parameter `T ptr-ops name = value` is exactly the written tokens), C02_array_declarator (array sizes)",
     "the collectors return the tokens they were given followed by exactly the tokens they took from the stream (same text and type, in order, none dropped or duplicated; a `]]` that closes two `[` appears as the two `]` it stands for, no character changes) and leave the stream right after them": "theorems C14_balanced_contiguous, C14_value_until_contiguous (via tokLoop_contiguous), C14_unfused_chars, C14_unfused_none",
     "`[1:-1]` removes exactly the two delimiters": "theorem C14_inner",
     "positions end to end: a method's `noexcept( content )` holds exactly the content tokens; in enumerator lists of any length every value holds exactly the tokens after its `=` and an enumerator without `=` has none": "theorems C14_method_noexcept_value, C14_enumerator_values",
